@@ -44,6 +44,7 @@ func runMsg(ctx sdk.Context, fn func(ctx sdk.Context) error) (err error, panicke
 		}
 	}()
 	err = fn(cc)
+	verifNote("handler error", err)
 	if err == nil {
 		write()
 	}
